@@ -97,7 +97,7 @@ Proof.
   unfold th_ok in Hth; simpl in Hth.
   destruct pc as [|f|f|f seen|f| |todo| |n]; simpl in Est.
   - (* SIdle: the next call starts *)
-    destruct ops as [|[f| |] r]; try discriminate; inversion Est; subst; clear Est; unfold SI; simpl;
+    destruct ops as [|[f| | |] r]; try discriminate; inversion Est; subst; clear Est; unfold SI; simpl;
       (split; [exact HA|]); (split; [unfold insec in *; simpl in *; lia|]); (split; [|exact HC]);
       apply others; unfold th_ok; simpl; auto; try apply incl_refl;
       intros j th2 _ Hj; exact (HT j th2 Hj).
